@@ -13,7 +13,7 @@
    does not, hence the side condition; the harness compares with == and feeds TypedDict values
    in shuffled insertion order. *)
 From Coq Require Import List String ZArith Bool.
-From Verif Require Import Core TyModel TyProofs TyRoundtrip.
+From Verif Require Import Core TupleIdx TyModel TyTuple TyProofs TyStrict TyRoundtrip.
 Import ListNotations.
 
 (* reference level *)
@@ -39,8 +39,8 @@ Theorem C01_roundtrip_codec : forall (E: senv) (P: prims),
 Proof.
   intros E P HE v t w HC HL HV Hpk.
   rewrite (encode_is_ref true E P v t HC) in Hpk.
-  rewrite (decode_is_ref E P w t).
-  exact (ref_roundtrip E P HE v t w HC HL HV Hpk).
+  pose proof (ref_roundtrip E P HE v t w HC HL HV Hpk) as Hrt.
+  rewrite (decode_is_ref_strict E P w t); [exact Hrt | rewrite Hrt; discriminate].
 Qed.
 Print Assumptions C01_roundtrip_codec.
 
@@ -69,7 +69,10 @@ Example C01_nonvacuous :
   forallb cls_ok exE = true /\ conf_ord exE exV (SData "D") = true /\ lossless (SData "D") = true /\
   vals_ok exP exV = true /\
   exists w, pk exE exP exV (cp true (SData "D")) = Ok w /\ uk exE exP w (cu true (SData "D")) = Ok exV.
-Proof. repeat split; try (vm_compute; reflexivity). eexists. split; vm_compute; reflexivity. Qed.
+Proof.
+  repeat (match goal with |- (_ = _) /\ _ => split; [vm_compute; reflexivity|] end).
+  eexists. split; [vm_compute; reflexivity | vm_compute; reflexivity].
+Qed.
 
 (* strongest form: the generated encoder always succeeds on such a value and the generated
    decoder gives the value back (existence + round trip, no hypothesis left about [w]) *)
@@ -82,7 +85,8 @@ Proof.
   intros E P HE v t HC HL HV.
   destruct (ref_enc_total true E P v t HC HV) as [w Hw].
   exists w. rewrite (encode_is_ref true E P v t HC). split; [exact Hw|].
-  rewrite (decode_is_ref E P w t). exact (ref_roundtrip E P HE v t w HC HL HV Hw).
+  pose proof (ref_roundtrip E P HE v t w HC HL HV Hw) as Hrt.
+  rewrite (decode_is_ref_strict E P w t); [exact Hrt | rewrite Hrt; discriminate].
 Qed.
 Print Assumptions C01_roundtrip_total.
 
@@ -106,7 +110,10 @@ Example C01_named_typed_nonvacuous :
     Ok (VList [VInt 1; VList [VInt 2; VInt 3];
                VDict [(VStr "r", VList [VList [VInt 4; VList [VInt 5; VInt 6]; VNone]]); (VStr "o", VStr "2024-01-02")]]) /\
   exists w, pk ntE exP ntV (cp true (SNamed "NT")) = Ok w /\ uk ntE exP w (cu true (SNamed "NT")) = Ok ntV.
-Proof. repeat split; try (vm_compute; reflexivity). eexists. split; vm_compute; reflexivity. Qed.
+Proof.
+  repeat (match goal with |- (_ = _) /\ _ => split; [vm_compute; reflexivity|] end).
+  eexists. split; [vm_compute; reflexivity | vm_compute; reflexivity].
+Qed.
 
 (* the order side condition is needed for = (not for ==): the same dict with the optional key
    first conforms, but comes back with its keys in canonical order *)
@@ -115,4 +122,14 @@ Example C01_typed_order_canonicalised :
   conf ntE v (STyped "TD") = true /\ conf_ord ntE v (STyped "TD") = false /\
   (w <- pk ntE exP v (cp true (STyped "TD")) ;; uk ntE exP w (cu true (STyped "TD")))
     = Ok (VDict [(VStr "r", VList []); (VStr "o", VLeaf "date" "2024-01-02")]).
-Proof. repeat split; vm_compute; reflexivity. Qed.
+Proof. cbv zeta. repeat (match goal with |- _ /\ _ => split end); vm_compute; reflexivity. Qed.
+
+(* tuples with an unpacked segment round-trip (any middle length) *)
+Example C01_unpacked_tuple :
+  let t := STupleU [SIntT] (STupleVar (SLeaf "date")) [SBoolT; SStrT] in
+  let v := VTuple [VInt 1; VLeaf "date" "2024-01-02"; VLeaf "date" "2024-01-03"; VBool true; VStr "z"] in
+  conf_ord [] v t = true /\ lossless t = true /\ vals_ok exP v = true /\
+  pk [] exP v (cp true t) = Ok (VList [VInt 1; VStr "2024-01-02"; VStr "2024-01-03"; VBool true; VStr "z"]) /\
+  uk [] exP (VList [VInt 1; VStr "2024-01-02"; VStr "2024-01-03"; VBool true; VStr "z"]) (cu true t) = Ok v /\
+  uk [] exP (VList [VInt 1; VBool true; VStr "z"]) (cu true t) = Ok (VTuple [VInt 1; VBool true; VStr "z"]).
+Proof. cbv zeta. repeat (match goal with |- _ /\ _ => split end); vm_compute; reflexivity. Qed.
